@@ -74,7 +74,27 @@ def findfield (j : Json) : Except String Json := do
                           ("py", py), ("py_reports", pyReports)]),
              ("spec", obj [("lookup", spec), ("own", specOwn), ("parent", specParent), ("dangling", specDangling)])])
 
+/-- `findfield_api`: the entry API only, on a database built with `add_entry` from `Entry` objects
+(no `.bib` text in between, so an entry may have a field and a role of the same name). -/
+def findfieldApi (j : Json) : Except String Json := do
+  let raw ← parseFile j
+  let names ← getStrList j "names"
+  let file := toModelFile raw
+  let sdb := Spec.readAll (toSpecFile raw)
+  let rows (ctx : Bool) : Json := match BibData.readFile none file with
+    | none => Json.str "KeyError"
+    | some (db, _) =>
+      match CIDict.items db.entries with
+      | none => Json.str "KeyError"
+      | some its => arr (its.map fun p => rowJ p.2.key (names.map fun n =>
+          optStr (p.2.findField n (if ctx then some db else none))))
+  let spec : Json := arr (sdb.map fun e => rowJ e.key (names.map fun n => optStr (Spec.lookup sdb e n)))
+  let specOwn : Json := arr (sdb.map fun e => rowJ e.key (names.map fun n => optStr (e.own n)))
+  pure (obj [("out", obj [("api", rows true), ("api_nodb", rows false)]),
+             ("spec", obj [("lookup", spec), ("own", specOwn)])])
+
 /-- driver ops of this property: (op name, handler) -/
-def handlers : List (String × (Json → Except String Json)) := [("findfield", findfield)]
+def handlers : List (String × (Json → Except String Json)) :=
+  [("findfield", findfield), ("findfield_api", findfieldApi)]
 
 end Pybtex.Drv.C14
